@@ -12,7 +12,7 @@ FUNCTIONS = ['mofun.helpers.guess_elements_from_masses', 'mofun.helpers.guess_el
              'mofun.atoms.Atoms.load_lmpdat (element/label fallback)']
 BOUNDS = {'quick': 'one symbolic mass in (-10, 400) and symbolic tolerance in (0, 0.6]: all paths (one per nearest-element region); two-call '
                    'histories (loose then tight tolerance on the same mass; two masses in one call); table-exhaustive fixed-point corollary',
-          'thorough': 'as quick plus lists of 3 symbolic masses'}
+          'thorough': 'as quick (incl. Atoms.load_lmpdat on a two-type file with symbolic masses/tolerance and four kinds of Masses comments) plus lists of 3 symbolic masses'}
 OUTSIDE = ['IEEE rounding of the one subtraction (decisions can differ only for masses within 1 ulp of a boundary)']
 ASSUMPTIONS = ['mass table = mofun.atomic_masses.ATOMIC_MASSES as found in /repo at run time']
 STUBS = []
@@ -26,6 +26,9 @@ def instances(tier, seed):
            dict(name='nearest:two-masses-one-call', family='nearest', n=2, lo=38, hi=41, cost=60),
            dict(name='fixed-points:table-exhaustive', family='fixedpoint', cost=5),
            dict(name='lmpdat-fallback', family='fallback', cost=5)]
+    # the reader itself on a file whose masses are symbolic, with and without comments on the Masses lines
+    for lab in ('none', 'elements', 'other-elements', 'ff-labels'):
+        out.append(dict(name=f'lmpdat-sym:{lab}', family='lmpdat-sym', labels=lab, cost=20))
     out += [dict(name=f'history:loose-then-tight:{lo}..{hi}', family='history', allow_realise=True, lo=lo, hi=hi, cost=30)
             for lo, hi in [(0.5, 30), (30, 70), (70, 130), (130, 200), (200, 300)]]
     for k, (lo, hi) in enumerate([(38.5, 40.5), (58, 59.5), (126, 128.5), (231, 233), (237, 239)]):
@@ -33,6 +36,12 @@ def instances(tier, seed):
     if tier == 'thorough':
         out.append(dict(name='nearest:three-masses', family='nearest', n=3, lo=54, hi=60, cost=300))
     return out
+
+
+def modset_kwargs(p):
+    if p.get('family') == 'lmpdat-sym':
+        return dict(fmt=True, key='fmt')
+    return dict(key='plain')
 
 
 def oracle(ctx, table, m, tol, result, raised, label=''):
@@ -110,6 +119,36 @@ def body(ctx, p):
                 for dm in (-0.04, 0.0, 0.04):
                     got = H.guess_elements_from_masses([table[e] + dm], max_delta=tol)
                     ctx.require('out-of-order neighbours are told apart', got == [e], detail=dict(element=e, dm=dm, got=got))
+    elif fam == 'lmpdat-sym':
+        # Atoms.load_lmpdat on a data file with two atom types whose masses are symbolic (windows around C..N and Ar..Ca) and
+        # a symbolic guessing tolerance; the Masses lines carry no comment / the right element / a different element / a
+        # force-field label.  Whatever the comments say, the elements come from the masses or are type numbers for ALL types.
+        import io
+        fm = ctx.ms.fmtmodel
+        Atoms = ctx.ms.Atoms
+        m0 = ctx.real('m0', 11.5, 14.5)
+        m1 = ctx.real('m1', 38.5, 40.5)
+        tol = ctx.real('tol', 1e-3, 0.5)
+        tok = (lambda x: fm.exact_token(x)) if ctx.sym else (lambda x: repr(float(x)))
+        com = {'none': ('', ''), 'elements': ('   # C', '   # K'), 'other-elements': ('   # Zr', '   # O'), 'ff-labels': ('   # C_R', '   # K_'),
+               }[p['labels']]
+        txt = ("x\n\n3 atoms\n0 bonds\n0 angles\n0 dihedrals\n0 impropers\n\n2 atom types\n 0.0 10.0 xlo xhi\n 0.0 10.0 ylo yhi\n 0.0 10.0 zlo zhi\n"
+               "\nMasses\n\n 1 %s%s\n 2 %s%s\n\nAtoms\n\n 1 1 1 0.0 1.0 1.0 1.0\n 2 1 2 0.0 2.0 2.0 2.0\n 3 1 1 0.0 3.0 3.0 3.0\n") % (tok(m0), com[0], tok(m1), com[1])
+        a = Atoms.load_lmpdat(io.StringIO(txt), guess_atol=tol)
+        got = [str(e) for e in a.atom_type_elements]
+        ctx.observe('elements', got)
+        with core.nosimplify():
+            w0 = OR(*[AND(m0 - mass < tol, mass - m0 < tol) for mass in table.values()])
+            w1 = OR(*[AND(m1 - mass < tol, mass - m1 < tol) for mass in table.values()])
+            if got == ['1', '2']:
+                ctx.require('type numbers only when some mass has no element within tolerance', NOT(AND(w0, w1)))
+            elif len(got) == 2 and all(g in table for g in got):
+                ctx.require('elements only when every mass has an element within tolerance (none invented)', AND(w0, w1))
+                oracle(ctx, table, m0, tol, got[0], False, label='type 1: ')
+                oracle(ctx, table, m1, tol, got[1], False, label='type 2: ')
+            else:
+                ctx.fail('atom type elements are table elements for every type or type numbers for every type', detail=dict(got=got))
+        ctx.require('per-atom elements follow the atom types', [str(e) for e in a.elements] == [got[0], got[1], got[0]], detail=dict(got=[str(e) for e in a.elements]))
     elif fam == 'fallback':
         import io
         Atoms = ctx.ms.Atoms
